@@ -1,5 +1,5 @@
 // govc:pkg .
-// govc:bound HAVING: 5 aggregates x 2 columns x {>,<,>=} x 3 thresholds singly, and 40 AND/OR pairs of unselected aggregates (about 130 queries; every third one beside a compound SELECT item); SELECT items: 12 item shapes (incl. parenthesised literal operands) plus 9 items using one aggregate twice over swapped operands and 4 items with a two-argument scalar call inside an aggregate's argument, 2 parameterised plain aggregates; every delivered row is also checked to hold the selected columns only x aggregates {sum,avg,min,max,count} x columns {v,w} x operators {+,-,*,/} x literals {2,0.5,32} on one fixed batch of 3 groups x 3 rows (about 700 queries)
+// govc:bound HAVING: 5 aggregates x 2 columns x {>,<,>=} x 3 thresholds singly, and 40 AND/OR pairs of unselected aggregates (about 130 queries; every third one beside a compound SELECT item); SELECT items: 12 item shapes (incl. parenthesised literal operands) plus 9 items using one aggregate twice over swapped operands and 4 items with a two-argument scalar call inside an aggregate's argument, 2 parameterised plain aggregates, 4 items whose only arithmetic is a unary minus on the aggregate; every delivered row is also checked to hold the selected columns only x aggregates {sum,avg,min,max,count} x columns {v,w} x operators {+,-,*,/} x literals {2,0.5,32} on one fixed batch of 3 groups x 3 rows (about 700 queries)
 // govc:also C11
 // Bounded stand-in (NOT a proof): SELECT items that combine aggregate calls, literals and arithmetic, executed through
 // the real engine (Execute / Emit / sync sink) against a relational oracle computed from the same rows. The classification
@@ -149,6 +149,12 @@ func govcItems() []govcItem {
 	out = append(out, govcItem{"SUM(POWER(w, 2) + v) + 1", govcBin("+", rowExpr("SUM", func(v, w float64) float64 { return pow2(w) + v }), govcLit(1))})
 	out = append(out, govcItem{"MAX(v * POWER(w, 2)) - MIN(v)", govcBin("-", rowExpr("MAX", func(v, w float64) float64 { return v * pow2(w) }), govcAgg("MIN", "v", 1))})
 	out = append(out, govcItem{"SUM(2 * POWER(w, 2)) / COUNT(v)", govcBin("/", rowExpr("SUM", func(v, w float64) float64 { return 2 * pow2(w) }), govcAgg("COUNT", "v", 1))})
+	// a unary sign as the only arithmetic of a compound item
+	neg := func(a govcVal) govcVal { return func(rows []map[string]any) float64 { return -a(rows) } }
+	out = append(out, govcItem{"-SUM(v)", neg(govcAgg("SUM", "v", 1))})
+	out = append(out, govcItem{"- SUM(v)", neg(govcAgg("SUM", "v", 1))})
+	out = append(out, govcItem{"(-AVG(v))", neg(govcAgg("AVG", "v", 1))})
+	out = append(out, govcItem{"-(MAX(w))", neg(govcAgg("MAX", "w", 1))})
 	// plain aggregates that take a parameter (they get a helper column of their own, which must not be delivered)
 	out = append(out, govcItem{"NTH_VALUE(v, 2)", func(rows []map[string]any) float64 { return rows[1]["v"].(float64) }})
 	out = append(out, govcItem{"NTH_VALUE(w, 1) + 0", func(rows []map[string]any) float64 { return rows[0]["w"].(float64) }})
